@@ -61,7 +61,8 @@ META = dict(
                 'digits do not survive the writer (C11) and are excluded from the round-trip domain (hypothesis json_fix).'),
 )
 
-LEAFS = ['c19_eof', 'c19_hdr_short', 'c19_overrun', 'c19_badlen', 'c19_rc_start', 'c19_rc_end', 'c19_rs_start', 'c19_rs_end', 'c19_wc_size']
+LEAFS = ['c19_eof', 'c19_hdr_short', 'c19_overrun', 'c19_badlen', 'c19_rc_start', 'c19_rc_end', 'c19_rs_start', 'c19_rs_end', 'c19_wc_size',
+         'c19_s_keylong', 'c19_s_vallong', 'c19_s_hdr', 'c19_s_fits', 'c19_s_more', 'c19_s_word']
 LEAF_TU = os.path.join(vlib.WORK, 'C19', 'C19_archive_leafs.cpp')
 GEN = {'Gen_C19': dict(src=LEAF_TU, incs=[], functions=[(n, 'g_' + n) for n in LEAFS])}
 
@@ -76,6 +77,38 @@ def function_body(src, header_re):
         depth += {'{': 1, '}': -1}.get(src[i], 0)
         i += 1
     return ' '.join(src[m.end():i - 1].split())
+
+
+def session_leafs():
+    """the same for session_interface.cpp: limits of the packed header, its bit-field widths, the two bounds tests of load_data"""
+    src = open(os.path.join(vlib.REPO, 'src', 'session_interface.cpp')).read()
+    src = re.sub(r'//[^\n]*', '', src)
+    src = ' '.join(re.sub(r'/\*.*?\*/', '', src, flags=re.S).split())
+    E = r'([^;{}]*?)'
+    m1 = re.search(r'struct packed ?\{ ?uint32_t key_size ?: ?(\d+); ?uint32_t exposed ?: ?(\d+); ?uint32_t data_size ?: ?(\d+); ?packed\(\) ?\{ ?\}', src)
+    m2 = re.search(r'packed\(unsigned ks, ?bool exp, ?unsigned ds\) ?\{ ?if ?\(' + E + r'\) ?throw cppcms_error\("session::save key too long"\); ?'
+                   r'if ?\(' + E + r'\) ?throw cppcms_error\("session::save value too long"\); ?key_size ?= ?ks; ?exposed ?= ?exp ?\? ?1 ?: ?0; ?data_size ?= ?ds; ?\}', src)
+    m3 = re.search(r'packed\(char const \*start, ?char const \*end\) ?\{ ?if ?\(' + E + r'\) ?\{ ?memcpy\(this, ?start, ?4\); ?\} ?else throw cppcms_error', src)
+    m4 = re.search(r'while ?\(' + E + r'\) ?\{ ?packed p\(begin, ?end\); ?begin ?\+= ?sizeof\(p\); ?if ?\(' + E + r'\) ?\{ ?std::string key\(begin, ?begin ?\+ ?p\.key_size\); ?'
+                   r'begin ?\+= ?p\.key_size; ?std::string val\(begin, ?begin ?\+ ?p\.data_size\); ?begin ?\+= ?p\.data_size;', src)
+    if not (m1 and m2 and m3 and m4):
+        return 'session_interface.cpp: struct packed / save_data / load_data no longer have the statement structure the model was written for (%s)' % \
+            ','.join(n for n, m in (('bit-fields', m1), ('limits', m2), ('header test', m3), ('load loop', m4)) if not m)
+    kb, eb, db = int(m1.group(1)), int(m1.group(2)), int(m1.group(3))
+    fits = m4.group(2).replace('p.key_size', 'key_size').replace('p.data_size', 'data_size')
+    for g in (m2.group(1), m2.group(2), m3.group(1), m4.group(1), fits):
+        if re.search(r'[^\w\s<>=!+\-*()]', g) or re.search(r'\b(?!ks\b|ds\b|start\b|end\b|begin\b|key_size\b|data_size\b|int\b)[A-Za-z_]\w*', g):
+            return 'session_interface.cpp: expression outside the translatable subset: ' + g
+    return [
+        '// from src/session_interface.cpp (pointers become byte offsets of type long; bit-field operands are passed as unsigned)',
+        'bool c19_s_keylong(unsigned ks) { return %s; }' % m2.group(1),
+        'bool c19_s_vallong(unsigned ds) { return %s; }' % m2.group(2),
+        'bool c19_s_hdr(long start, long end) { return %s; }' % m3.group(1),
+        'bool c19_s_fits(long begin, long end, unsigned key_size, unsigned data_size) { return %s; }' % fits,
+        'bool c19_s_more(long begin, long end) { return %s; }' % m4.group(1),
+        '// little-endian bit-field allocation of struct packed with the widths declared in the source: %d, %d, %d' % (kb, eb, db),
+        'uint32_t c19_s_word(uint32_t ks, uint32_t ex, uint32_t ds) { return (ks & ((1u << %d) - 1)) | ((ex & ((1u << %d) - 1)) << %d) | ((ds & ((1u << %d) - 1)) << %d); }'
+        % (kb, eb, kb, db, kb + eb)]
 
 
 def make_leaf_tu():
@@ -113,6 +146,9 @@ def make_leaf_tu():
         for g in parts:
             if 'buffer_' in g or '(' in g.replace('(bsz', '').replace('(ptr_', '').replace('(size', '').replace('(len', '').replace('(4', ''):
                 return 'archive::%s: expression outside the translatable subset: %s' % (name, g)
+    sess = session_leafs()
+    if isinstance(sess, str):
+        return sess
     tu = '\n'.join([
         '// GENERATED by checks/C19.py from src/archive.cpp (expressions copied verbatim; buffer_.size() -> bsz)',
         '#include <stddef.h>', '#include <stdint.h>',
@@ -124,7 +160,7 @@ def make_leaf_tu():
         'size_t c19_rc_end(size_t ptr_, size_t len) { %s %s return ptr_; }' % (got['rc'][1], got['rc'][2]),
         'size_t c19_rs_start(size_t ptr_) { return %s; }' % got['rs'][0],
         'size_t c19_rs_end(size_t ptr_, size_t size) { %s return ptr_; }' % got['rs'][1],
-        'uint32_t c19_wc_size(size_t len) { %s return size; }' % got['wc'][0], ''])
+        'uint32_t c19_wc_size(size_t len) { %s return size; }' % got['wc'][0]] + sess + [''])
     vlib.write_if_changed(LEAF_TU, tu)
     return None
 
